@@ -24,6 +24,8 @@ var mRawFile = Mutant{"resolvePath passes the raw file field to the resolver", f
 var mAvoidGroup = Mutant{"fragment avoids up to the end of the comment group", fDF, "endLine := f.Fset.Position(c.End()).Line", "endLine := f.Fset.Position(cg.End()).Line"}
 var mDeleteReg = Mutant{"restoreIdent forgets the identifier's registration", fR, "\tr.Dst.Nodes[out.Sel] = n\n", "\tr.Dst.Nodes[out.Sel] = n\n\tdelete(r.Ast.Nodes, r.Dst.Nodes[out.Sel])\n"}
 var mResolveAll = Mutant{"updateImports asks the resolver about every required import", fR, "\tfor path := range packagesInUse {\n\t\tif _, ok := effectiveAlias[path]; ok {", "\tfor path := range importsRequired {\n\t\tif _, ok := effectiveAlias[path]; ok {"}
+var mEndAtPos = Mutant{"fragger BinaryExpr places its End point at the node's start", fFrag, "\t\t// Node: Y\n\t\tif n.Y != nil {\n\t\t\tf.addNodeFragments(n.Y)\n\t\t}\n\n\t\t// Decoration: End\n\t\tf.addDecorationFragment(n, \"End\", n.End())", "\t\t// Node: Y\n\t\tif n.Y != nil {\n\t\t\tf.addNodeFragments(n.Y)\n\t\t}\n\n\t\t// Decoration: End\n\t\tf.addDecorationFragment(n, \"End\", n.Pos())"}
+var mInnerAtToken = Mutant{"fragger BinaryExpr positions the X point at the operator", fFrag, "\t\t// Decoration: X\n\t\tf.addDecorationFragment(n, \"X\", token.NoPos)\n\n\t\t// Token: Op\n\t\tf.addTokenFragment(n, n.Op, n.OpPos)", "\t\t// Decoration: X\n\t\tf.addDecorationFragment(n, \"X\", n.OpPos)\n\n\t\t// Token: Op\n\t\tf.addTokenFragment(n, n.Op, n.OpPos)"}
 var mTokenLen = Mutant{"restore DeferStmt advances by len(go)", fRest, "len(token.DEFER.String())", "len(token.GO.String())"}
 var mDropTok = Mutant{"restore AssignStmt drops out.Tok", fRest, "\t\tout.Tok = n.Tok\n\t\tout.TokPos = r.cursor\n\t\tr.cursor += token.Pos(len(n.Tok.String()))\n\n\t\t// Decoration: Tok\n\t\tr.applyDecorations(out, \"Tok\", n.Decs.Tok, false)\n\n\t\t// List: Rhs", "\t\tout.TokPos = r.cursor\n\t\tr.cursor += token.Pos(len(n.Tok.String()))\n\n\t\t// Decoration: Tok\n\t\tr.applyDecorations(out, \"Tok\", n.Decs.Tok, false)\n\n\t\t// List: Rhs"}
 var mElseGuard = Mutant{"restore IfStmt else token unguarded", fRest, "if n.Else != nil {\n\t\t\tr.cursor", "if true {\n\t\t\tr.cursor"}
@@ -86,8 +88,8 @@ var mScopeInsert = Mutant{"Scope.Insert overwrites", "scope.go", "\tif alt = s.O
 
 // SelfTestMutants lists, per property, the mutants its check must catch.
 var SelfTestMutants = map[string][]Mutant{
-	"C01": {mTokenLen, mDropTok, mElseGuard, mFragNoChild, mNoParseComments, mFileScope, mDecKey, mCrossFile, mAvoidGroup},
-	"C02": {mDecKey, mCloneDropDec, mSpaceLast, mCondDec, mCrossFile},
+	"C01": {mTokenLen, mDropTok, mElseGuard, mFragNoChild, mNoParseComments, mFileScope, mDecKey, mCrossFile, mAvoidGroup, mEndAtPos, mInnerAtToken},
+	"C02": {mDecKey, mCloneDropDec, mSpaceLast, mCondDec, mCrossFile, mEndAtPos},
 	"C03": {mDropTok, mDropChildDeco, mFragNoChild, mElseGuard, mCrossFile, mAvoidGroup},
 	"C04": {mSwapDecs, mEndFlag, mCondDec},
 	"C05": {mSpaceNoFresh, mSpaceEmpty3, mSpaceLast, mNoAdvanceNL},
